@@ -61,6 +61,7 @@ func judge(prop *Property, ep *Episode) []Viol {
 		j.add("crash", ep.Res.Steps, "%s", ep.Res.Msg)
 	case simrt.VStepCap:
 		j.add("C03.d", ep.Res.Steps, "step budget exhausted with the ageing scheduler: livelock")
+		j.add("livelock", ep.Res.Steps, "step budget exhausted under the ageing scheduler (%s): the system never comes to rest, accepted work is never finished", ep.Res.Msg)
 	case simrt.VHang:
 		j.add("hang", ep.Res.Steps, "the driving task is blocked forever: %s", j.blockedTable())
 	case simrt.VInternal:
